@@ -90,6 +90,10 @@ func generate(prop, tier, lane string, seed uint64, worker, run int) *Scenario {
 	if lane == "race" {
 		scn.Strat = Strategy{Kind: "none"}
 	}
+	if lane == "racesim" && scn.C11 == nil && scn.C20 == nil {
+		fmt.Fprintln(os.Stderr, "the controlled race lane serves C11 and C20 only")
+		os.Exit(2)
+	}
 	return scn
 }
 
@@ -143,6 +147,10 @@ func cmdRun(args []string) {
 	gcOwned := *lane == "sim" && *prop != "C07"
 	if *lane == "sim" && os.Getenv("SLIMSIM_KEEP_GOMAXPROCS") == "" {
 		runtime.GOMAXPROCS(1)
+	}
+	if *lane == "racesim" {
+		runtime.GOMAXPROCS(1)
+		spinTransport = true
 	}
 	if gcOwned {
 		// GC is taken out of the picture while a run executes (sync.Pool and
@@ -218,7 +226,7 @@ func handleViolation(scn *Scenario, res *RunResult) ViolationRef {
 		fmt.Fprintln(os.Stderr, "cannot write replay file:", err)
 		os.Exit(2)
 	}
-	if scn.Lane == "race" {
+	if scn.Lane == "race" || scn.Lane == "racesim" {
 		return ViolationRef{Replay: path, Viol: res.Viol}
 	}
 	// Prefer the explicit recorded schedule if it reproduces.
@@ -299,13 +307,17 @@ func cmdReplay(args []string) {
 		debug.SetGCPercent(-1)
 		debug.SetMemoryLimit(3 << 30)
 	}
+	if scn.Lane == "racesim" {
+		runtime.GOMAXPROCS(1)
+		spinTransport = true
+	}
 	startWatchdog(180 * time.Second)
 	tStart := time.Now()
 	for i := 0; i < *tries; i++ {
 		if i > 0 && time.Since(tStart) > 150*time.Second {
 			break
 		}
-		if rf.History || scn.Lane == "race" {
+		if rf.History || scn.Lane == "race" || (scn.Lane == "racesim" && i > 0) {
 			// re-create the package-level state the worker process had
 			for r := 0; r < scn.Run; r++ {
 				execute(generate(scn.Prop, scn.Tier, scn.Lane, scn.Seed, scn.Worker, r))
